@@ -474,6 +474,14 @@ VARIANTS = [
          old="    let start = t.floor() as isize;", new="    let start = t.ceil() as isize;"),
     dict(property="C01", name="nearest-time-frac-ceil", file=INTERP, expect="R-C01-nodes/get_nearest_time",
          old="let mut subindex = ((t - t.floor()) * (factor as f64)).round() as isize;", new="let mut subindex = ((t - t.ceil()) * (factor as f64)).round() as isize;"),
+    dict(property="C07", name="position-rebased-via-f32", file=SINC, expect="f32-casts",
+         old="self.last_index = idx - self.chunk_size as f64;", new="self.last_index = idx - self.chunk_size as f32 as f64;"),
+    dict(property="C11", name="fft-padding-fill-skips-twice", file=SYN, expect="R-C11-scratch",
+         old="            .skip(self.fft_size_in)\n            .take(self.fft_size_in)", new="            .skip(self.fft_size_in)\n            .skip(self.fft_size_in)"),
+    dict(property="C02", name="fft-filter-placed-past-the-block", file=SYN, expect="filter-placement",
+         old="for (n, f) in filter_t.iter_mut().enumerate().take(fft_size_in) {", new="for (n, f) in filter_t.iter_mut().enumerate().skip(fft_size_in) {"),
+    dict(property="C01", name="fft-output-loop-skips-first-frame", file=SYN, expect="the output loop",
+         old="for (n, item) in wave_out.iter_mut().enumerate().take(self.fft_size_out) {", new="for (n, item) in wave_out.iter_mut().enumerate().skip(1).take(self.fft_size_out) {"),
 ]
 
 
